@@ -83,9 +83,13 @@ ADDENDA = {
  "C05": " Requests may carry No-Response (the reply withheld or not).",
  "C06": " The client may have block-wise transfer on and the response may come in several blocks; no copy of the original after the complete response was delivered.",
  "C08": " Engine blockwise: observations with notification bodies of several blocks between two library endpoints (overlapping transfers, changing representations, fault tapes): every delivery carries a sequence number and the numbers strictly increase.",
- "C09": " One-way writes also with bodies of several blocks.",
- "C10": " Handlers of the loopback server may call back to the requesting peer (confirmable or non-confirmable) before they answer.",
- "C11": " Nested requests may be non-confirmable.",
+ "C02": " Pooled mode prepared: token, code, type and message ID set before the datagram is decoded into the message.",
+ "C09": " One-way writes also with bodies of several blocks; a peer that answers with Empty messages.",
+ "C15": " The pool engine also hands a message its own options back (ResetOptionsTo(m.Options()), Clone onto itself).",
+ "C16": " A quarter of the generated scenarios address the root resource (no Uri-Path option).",
+ "C18": " Empty messages (stream) and resets that answer nothing (datagram) count as messages received.",
+ "C10": " Handlers of the loopback server may call back to the requesting peer (confirmable or non-confirmable) before they answer; a raw peer may reject that request with a Reset and go on talking (one conversation, one connection).",
+ "C11": " Nested requests may be non-confirmable; injected messages may be resets that answer nothing pending.",
  "C12": " Requests may carry No-Response.",
  "C13": " Requests may carry No-Response.",
  "C14": " Engine expiring: elements whose deadline falls into store-if-absent calls that wait for the table's lock (real goroutines, timing-independent oracle).",
